@@ -329,13 +329,13 @@ Definition step_ok (h : hev * gobs) : bool :=
       (negb (obs_quiescent live) || N.eqb (views_diff_full live rebuilt) 0)
   | _ => true
   end.
-(* "later edits made through the cache build on the merged history": a Commit of bug e through the cache of user r that reports
-   success leaves r's ref of e on a descendant of where it was after r's previous step (only r's own steps move r's refs; a pull
+(* "later edits made through the cache build on the merged history": a Commit (or CommitAsNeeded) of bug e through the cache of user r
+   that reports success leaves r's ref of e on a descendant of where it was after r's previous step (only r's own steps move r's refs; a pull
    in between has put the merged head there).  Evaluated on the refs and the commit graph as read through RepoData. *)
 Definition hev_rep (h : hev) : nat := match h with HEv ev => rep_ev ev | HNop r => r | HObserve r _ _ _ => r end.
 Definition commit_builds_on (s : store) (prev : amap) (h : hev) (o : gobs) : bool :=
   match h, o_out o with
-  | HEv (VCommit _ e _ _), CDone =>
+  | HEv (VCommit _ e _ _), CDone | HEv (VCommitAsNeeded _ e _ _), CDone =>
       match alookup e prev, alookup e (o_loc o) with
       | Some h0, Some h1 => is_anc s h0 h1
       | _, _ => true
